@@ -379,19 +379,24 @@ impl<T: crate::EventSource> crate::EventSource for TransientSource<T> {
 
     fn unregister(&mut self, poll: &mut crate::Poll) -> crate::Result<()> {
         match &mut self.state {
-            TransientSourceState::Keep(source)
-            | TransientSourceState::Register(source)
-            | TransientSourceState::Disable(source) => source.unregister(poll)?,
+            TransientSourceState::Keep(source) | TransientSourceState::Disable(source) => {
+                source.unregister(poll)?
+            }
             TransientSourceState::Remove(source) => {
                 source.unregister(poll)?;
                 self.state.replace_state(|_| TransientSourceState::None);
             }
-            TransientSourceState::Replace { new, old } => {
+            // Only the old source is registered, the new one is still waiting
+            // for its registration.
+            TransientSourceState::Replace { old, .. } => {
                 old.unregister(poll)?;
-                new.unregister(poll)?;
                 self.state.replace_state(TransientSourceState::Register);
             }
-            TransientSourceState::Disabled(_) | TransientSourceState::None => (),
+            // A source waiting to be registered or already disabled is not
+            // registered.
+            TransientSourceState::Register(_)
+            | TransientSourceState::Disabled(_)
+            | TransientSourceState::None => (),
         }
         Ok(())
     }
